@@ -195,6 +195,9 @@ func (p *pipeRun) fire(t trigger) {
 		syscall.Kill(os.Getpid(), syscall.SIGKILL)
 		select {}
 	case "sigterm":
+		if !p.stopCalled.CompareAndSwap(0, p.nextSeq()) {
+			return // a second SIGTERM would force-exit the process (that is by design of WatchSignals)
+		}
 		syscall.Kill(os.Getpid(), syscall.SIGTERM)
 	case "stop":
 		go p.stop()
